@@ -192,7 +192,8 @@ func (s *Snapshot) walkStruct(path string, sv reflect.Value, depth int) {
 // reflect, no call into the generated code). Reads may panic on such states
 // (another property's business) but must not write. kind: 0 a message-valued
 // map entry holding a nil pointer, 1 a oneof field holding a typed-nil wrapper
-// pointer, 2 a oneof wrapper whose message member is nil. sel picks the field.
+// pointer, 2 a oneof wrapper whose message member is nil, 3 a nil element in a
+// repeated message field. sel picks the field.
 // It reports whether the shape could be applied.
 func OddShape(kind, sel int, copies ...proto.Message) bool {
 	first := reflect.ValueOf(copies[0]).Elem()
@@ -219,6 +220,10 @@ func OddShape(kind, sel int, copies ...proto.Message) bool {
 					cands = append(cands, i)
 				}
 			}
+		case 3:
+			if f.Kind() == reflect.Slice && f.Type().Elem().Kind() == reflect.Pointer && f.Type().Elem().Elem().Kind() == reflect.Struct && f.Len() > 0 {
+				cands = append(cands, i)
+			}
 		}
 	}
 	if len(cands) == 0 {
@@ -241,6 +246,9 @@ func OddShape(kind, sel int, copies ...proto.Message) bool {
 		case 2:
 			inner := f.Elem().Elem().Field(0)
 			inner.Set(reflect.Zero(inner.Type()))
+		case 3:
+			e := f.Index((sel / 7) % f.Len())
+			e.Set(reflect.Zero(e.Type()))
 		}
 	}
 	return true
